@@ -196,6 +196,8 @@ pub fn set_fault(f: Option<Fault>) {
         }
     }
 }
+/// how long the failing step takes before it fails (µs)
+pub static FAULT_DELAY_US: std::sync::atomic::AtomicU64 = std::sync::atomic::AtomicU64::new(0);
 pub fn fault_fired() -> bool {
     unsafe { !SH.is_null() && (*SH).fault_fired.load(Ordering::SeqCst) != 0 }
 }
@@ -215,6 +217,12 @@ pub fn fault_check(kind: u32) -> Option<i32> {
         if COUNT[kind as usize] == f.nth {
             if !SH.is_null() {
                 (*SH).fault_fired.store(1, Ordering::SeqCst);
+            }
+            // (a step that takes its time before it fails: a slow file system, a starved child)
+            let d = FAULT_DELAY_US.load(Ordering::SeqCst);
+            if d > 0 {
+                let ts = libc::timespec { tv_sec: (d / 1_000_000) as libc::time_t, tv_nsec: ((d % 1_000_000) * 1000) as libc::c_long };
+                crate::raw::clock_nanosleep(libc::CLOCK_MONOTONIC, 0, &ts, std::ptr::null_mut());
             }
             Some(f.errno)
         } else {
